@@ -270,6 +270,7 @@ def gen_model(rng, n_classes=12, depth_max=4, width_max=3, published=True):
     classes = []
     depth = {}
     vnames = {}      # class -> set of (vname, const) virtual signatures visible (approximation)
+    pures = {}       # class -> set of (vname, const) still pure (approximation, only steers the generator)
     finals = set()
     for k in range(n_classes):
         name = f"C{k}"
@@ -287,7 +288,9 @@ def gen_model(rng, n_classes=12, depth_max=4, width_max=3, published=True):
             bases = list(dict.fromkeys(bases))
         d = 1
         vis = set()
+        inh_pure = set()
         for bn in bases:
+            inh_pure |= pures[bn]
             acc = rng.choice(["public", "public", "public", "protected", "private", ""])
             virt = rng.random() < 0.2
             if virt and not acc:
@@ -335,6 +338,17 @@ def gen_model(rng, n_classes=12, depth_max=4, width_max=3, published=True):
                 add(rng.choice(DATA_PLAIN))
         # ---- virtual functions
         own = set()
+        my_pure = set(inh_pure)
+        if inh_pure and rng.random() < 0.6:
+            # override every pure virtual that arrives through the bases (possibly via intermediate classes)
+            for (vn, const) in sorted(inh_pure):
+                if const:
+                    t = rng.choice(["virt:override-const", "virt:implicit-override-const"])
+                else:
+                    t = rng.choice(["virt:override", "virt:implicit-override", "virt:final"])
+                own.add((vn, const, False))
+                add(t, n=vn, access=rng.choice(["", "public", "public", "protected", "private"]))
+                my_pure.discard((vn, const))
         for _ in range(rng.choice([0, 0, 1, 1, 2])):
             vn = rng.randrange(3)
             have_nc = (vn, False) in vis
@@ -354,6 +368,10 @@ def gen_model(rng, n_classes=12, depth_max=4, width_max=3, published=True):
             add(t, n=vn, access=rng.choice(["", "public", "public", "protected", "private"]))
             if t in ("virt:decl", "virt:pure", "virt:decl-const", "virt:pure-const"):
                 vis.add((vn, const))
+            if t in ("virt:pure", "virt:pure-const", "virt:pure-override"):
+                my_pure.add((vn, const))
+            elif t != "virt:param-variant":
+                my_pure.discard((vn, const))
         if rng.random() < 0.25:
             add(rng.choice(["fn:plain", "fn:static"]))
         if published and rng.random() < 0.7:
@@ -362,6 +380,7 @@ def gen_model(rng, n_classes=12, depth_max=4, width_max=3, published=True):
             c["final"] = True
             finals.add(name)
         vnames[name] = vis
+        pures[name] = my_pure
         rng.shuffle(mem)
         classes.append(c)
     return {"classes": classes}
